@@ -88,7 +88,7 @@ def build(case):
         for c in range(k):
             if tg[c] is not None:
                 comp_axis[dims.index(tg[c])] = c
-    f = df.Field(mesh, nvdim=k, value=arr, valid=gen.make_mask(case["mask"], n), **kw)
+    f = df.Field(mesh, nvdim=k, value=np.array(arr, copy=True), valid=gen.make_mask(case["mask"], n), **kw)
     return mesh, f, arr, labels, comp_axis
 
 
@@ -510,8 +510,8 @@ def check_sequence(case):
         # non-empty dictionaries (an empty one is falsy: `kw or {}` would hide a missing copy)
         shared = {"scalar_kw": {"cmap": "viridis"}, "vector_kw": {"scale": None}, "plain": {}}
         if case["scenario"] == "shared-kw":
-            f1 = df.Field(mesh, nvdim=k, value=arr, valid=m1, **kw)
-            f2 = df.Field(mesh, nvdim=k, value=arr, valid=m2, **kw)
+            f1 = df.Field(mesh, nvdim=k, value=np.array(arr, copy=True), valid=m1, **kw)
+            f2 = df.Field(mesh, nvdim=k, value=np.array(arr, copy=True), valid=m2, **kw)
             fig1, ax1 = plt.subplots()
             plot(f1, ax1, shared)
             fig2, ax2 = plt.subplots()
@@ -523,7 +523,7 @@ def check_sequence(case):
             require(shared == {"scalar_kw": {"cmap": "viridis"}, "vector_kw": {"scale": None}, "plain": {}},
                     "caller-kwargs-modified", f"{shared}")
         else:
-            f1 = df.Field(mesh, nvdim=k, value=arr, valid=m1.copy(), **kw)
+            f1 = df.Field(mesh, nvdim=k, value=np.array(arr, copy=True), valid=m1.copy(), **kw)
             fig1, ax1 = plt.subplots()
             plot(f1, ax1, shared)
             f1.valid[...] = m2  # in-place edit of the mask
